@@ -41,7 +41,9 @@ def _solver(h, cls, strict, has_run):
     nrec = 3 if has_run else 0
     stepmon = h.obj(MON, _x=h.clist([0.0] * nrec), _y=h.clist([0.0] * nrec), _id=h.clist([]), _info=h.clist([]),
                     k=None, _npts=None, label='ChiSquare')
-    evalmon = h.obj(MON, _x=h.clist([]), _y=h.clist([]), _id=h.clist([]), _info=h.clist([]), k=None, _npts=None, label='ChiSquare')
+    # the evaluation monitor may already hold records (installed with data, or shared): the counter must not follow it
+    nev = h.choice('evaluation_monitor_records', [0, 3])
+    evalmon = h.obj(MON, _x=h.clist([0.0] * nev), _y=h.clist([0.0] * nev), _id=h.clist([None] * nev), _info=h.clist([]), k=None, _npts=None, label='ChiSquare')
     fc0 = h.int('fcalls')
     h.assume('fc0 >= 0', fc0=fc0)
     p0, p1 = h.list_real('member0', nd=True, n=D), h.list_real('member1', nd=True, n=D)
